@@ -327,7 +327,7 @@ func TestRandomHistories(t *testing.T) {
 				steps[i].StrayCC = rapid.SampledFrom(strayCodes).Draw(t, "strayCode")
 			}
 		}
-		msg, foreign := runHistory(rapid.SampledFrom(hx.Suites9()).Draw(t, "suite"), inSession, steps, rapid.Uint64().Draw(t, "seed"), rapid.IntRange(0, 1<<20).Draw(t, "draw"))
+		msg, foreign := runHistory(rapid.SampledFrom(hx.Suites12()).Draw(t, "suite"), inSession, steps, rapid.Uint64().Draw(t, "seed"), rapid.IntRange(0, 1<<20).Draw(t, "draw"))
 		ev.Eval()
 		if msg != "" {
 			t.Fatalf("inSession=%v: %s", inSession, msg)
